@@ -387,7 +387,12 @@ fn lambda_nest(t: &mut Tape, depth: usize) -> E {
     use crate::gen_::expr::{P, bin, id, n};
     use crate::model::prec::Op;
     if depth == 0 || t.exhausted() {
-        return match t.pick(4) {
+        return match t.pick(8) {
+            // lists / records (which the layout decorates with comments) under operators
+            4 => bin(Op::Add, E::List(vec![id("a"), n(2.0)]), id("b")),
+            5 => E::Index(Box::new(E::List(vec![id("a"), id("b")])), Box::new(n(0.0))),
+            6 => E::Neg(Box::new(E::Field(Box::new(E::Rec(vec![crate::gen_::expr::RE::Pair("k".into(), id("a"))])), "k".into()))),
+            7 => E::If(Box::new(id("c")), Box::new(E::List(vec![id("a"), n(1.0)])), Box::new(E::List(vec![E::Spread(Box::new(E::List(vec![id("b")])))]))),
             0 => id("a"),
             1 => bin(Op::Add, id("a"), bin(Op::Mul, id("b"), n(2.0))),
             2 => E::List(vec![id("a"), id("b"), n(3.0)]),
